@@ -45,8 +45,12 @@ def gen_functions():
         out.append(("gen_fn/pair/%d" % k, "#['int, 'int] { =[a, b], [[a, %d] __integer_multiply__, b] __integer_add__ }" % k))
         out.append(("gen_fn/tuple/%d" % k, "#'int { P[x: ~, y: %d] }" % k))
         out.append(("gen_fn/bin/%d" % k, "#'int { | =%d => 0x%02x | 0x00 }" % (k, k)))
-    for m in ("%num.add", "%num.mul", "%num.div", "%num.neg", "%num.floor", "%int.div", "%int.mod", "%num.lt?"):
-        out.append(("std/" + m[1:], m))
+    for m in ("add", "mul", "div", "lt?", "min"):
+        out.append(("std/num." + m, "#['%%num.opt, '%%num.opt] { %%num.%s }" % m))
+    for m in ("neg", "floor", "abs", "sign"):
+        out.append(("std/num." + m, "#'%%num.opt { %%num.%s }" % m))
+    for m in ("div", "mod"):
+        out.append(("std/int." + m, "#['int, 'int] { %%int.%s }" % m))
     return out
 
 
